@@ -79,7 +79,41 @@ theorem twilightCos_antitone (lat dec a a' : ℝ)
   · rw [toRadians_real]; have := Real.pi_pos; nlinarith
   · rw [toRadians_real, toRadians_real]; have := Real.pi_pos; nlinarith
 
-/-- **a larger angle never gives a later Fajr or an earlier Isha** -/
+/-- **a larger angle never gives a later Fajr** - needs the two Fajr times only (no hypothesis on
+    Isha: also on the high-latitude days where Isha does not exist) -/
+theorem fajr_monotone (a a' b b' lat dec dhuhr f f' : ℝ)
+    (hk : 0 < Real.cos (toRadians lat) * Real.cos (toRadians dec))
+    (ha0 : -90 ≤ a) (ha : a ≤ a') (ha1 : a' ≤ 90)
+    (hf : (fajrIsha a b lat dec dhuhr).1 = some f) (hf' : (fajrIsha a' b' lat dec dhuhr).1 = some f') :
+    f' ≤ f := by
+  have hc := hours_per_degree_pos
+  unfold fajrIsha at hf hf'
+  simp only at hf hf'
+  split at hf <;> [skip; simp at hf]
+  split at hf' <;> [skip; simp at hf']
+  simp only [Option.some.injEq, sc_acos] at hf hf'
+  have m1 := twilightCos_antitone lat dec a a' hk ha0 ha ha1
+  have e1 := toDegrees_le (Real.arccos_le_arccos m1)
+  rw [← hf, ← hf']; nlinarith
+
+/-- **a larger angle never gives an earlier Isha** - needs the two Isha times only -/
+theorem isha_monotone (a a' b b' lat dec dhuhr i i' : ℝ)
+    (hk : 0 < Real.cos (toRadians lat) * Real.cos (toRadians dec))
+    (hb0 : -90 ≤ b) (hb : b ≤ b') (hb1 : b' ≤ 90)
+    (hi : (fajrIsha a b lat dec dhuhr).2 = some i) (hi' : (fajrIsha a' b' lat dec dhuhr).2 = some i') :
+    i ≤ i' := by
+  have hc := hours_per_degree_pos
+  unfold fajrIsha at hi hi'
+  simp only at hi hi'
+  split at hi <;> [skip; simp at hi]
+  split at hi' <;> [skip; simp at hi']
+  simp only [Option.some.injEq, sc_acos] at hi hi'
+  have m2 := twilightCos_antitone lat dec b b' hk hb0 hb hb1
+  have e2 := toDegrees_le (Real.arccos_le_arccos m2)
+  rw [← hi, ← hi']; nlinarith
+
+/-- **a larger angle never gives a later Fajr or an earlier Isha** (joint form; `fajr_monotone` and `isha_monotone`
+    are the one-sided statements) -/
 theorem twilight_monotone (a a' b b' lat dec dhuhr f f' i i' : ℝ)
     (hk : 0 < Real.cos (toRadians lat) * Real.cos (toRadians dec))
     (ha0 : -90 ≤ a) (ha : a ≤ a') (ha1 : a' ≤ 90) (hb0 : -90 ≤ b) (hb : b ≤ b') (hb1 : b' ≤ 90)
